@@ -12,6 +12,8 @@ for i, a in enumerate(sys.argv):
     if a == "--tier": tier = sys.argv[i + 1]
     if a == "--only": only = sys.argv[i + 1]
 src = "/tmp/seed/%s/SEED" % pid
+if "--src" in sys.argv:
+    src = sys.argv[sys.argv.index("--src") + 1]
 name = pid if "--name" not in sys.argv else sys.argv[sys.argv.index("--name") + 1]
 work = "/tmp/verif_seed/%s" % name
 shutil.rmtree(work, True)
